@@ -48,7 +48,7 @@ def registry():
     except ImportError:
         P = None
     reg['C03'] = dict(
-        rules=[T.rule_pb_sig, T.rule_pb_acc, T.rule_pb_out, T.rule_pb_view, T.rule_pb_ro, T.rule_pb_complete, T.rule_pb_pair],
+        rules=[T.rule_pb_sig, T.rule_pb_acc, T.rule_pb_out, T.rule_pb_view, T.rule_pb_ro, T.rule_pb_complete, T.rule_pb_pair, T.rule_setitem_copy],
         explanation='Static decision of the tracer<->pullback calling protocol every traced program depends on. '
                     'Decides: existence/arity/keyword/permutation agreement between each recorder site and UTPM.pb_<name> '
                     '(R-pb-sig); accumulate-never-overwrite into adjoint storage (R-pb-acc, via the E1 alias/effect analysis '
@@ -61,7 +61,7 @@ def registry():
                      'receiver classes by class-hierarchy analysis on method names (no type checker available)',
                      'Function.pullback dispatch expression as extracted by tracer_proto.dispatch_shape'])
     reg['C06'] = dict(
-        rules=[T.rule_pb_ro, T.rule_sweep_init, T.rule_sweep_balance, T.rule_x_writers, T.rule_drv_fresh, T.rule_seed_copy, T.rule_global, T.rule_doc],
+        rules=[T.rule_pb_ro, T.rule_sweep_init, T.rule_sweep_balance, T.rule_setitem_copy, T.rule_x_writers, T.rule_drv_fresh, T.rule_seed_copy, T.rule_global, T.rule_doc],
         explanation='Static decision of the state discipline that makes results a function of the call\'s arguments only. '
                     'Decides: pullbacks never write forward values or incoming adjoints (R-pb-ro, E1 effects); adjoints are '
                     're-initialised unconditionally for every node before every sweep and xbar_from_x ignores the previous xbar '
@@ -72,7 +72,7 @@ def registry():
                     'equality of results across concrete histories.',
         assumptions=['library summary tables of verif/effects.py', 'the structural shape of CGraph.pullback (three top-level loops)'])
     if A is not None:
-        reg['C04'] = dict(rules=[A.rule_drv_order, T.rule_drv_fresh, A.rule_drv_flow, T.rule_sweep_init],
+        reg['C04'] = dict(rules=[A.rule_drv_order, T.rule_drv_fresh, T.rule_setitem_copy, A.rule_drv_flow, T.rule_sweep_init],
                           explanation='Static decision of the driver protocol. Decides: on every path of each of the 8 drivers '
                                       'forward evaluation precedes the reverse sweep which precedes the read of xbar/x '
                                       '(R-drv-order); the point x and every supplied vector flow into the forward seed / '
@@ -81,7 +81,7 @@ def registry():
                                       'adjoints are re-initialised per sweep (R-sweep-init). NOT decided: the slicing '
                                       'arithmetic that picks coefficients out of xbar.',
                           assumptions=['def-use chains inside the driver bodies (no aliasing through containers)'])
-        reg['C05'] = dict(rules=[A.rule_rec_once, T.rule_global, A.rule_rec_same, A.rule_rec_name],
+        reg['C05'] = dict(rules=[A.rule_rec_once, A.rule_rec_operands, T.rule_global, A.rule_rec_same, A.rule_rec_name],
                           explanation='Static decision of the recording/replay protocol. Decides: every overload of the '
                                       'differentiable API records exactly once on every returning path (R-rec-once); graph '
                                       'registration state has a closed writer set, ID == position, nothing is recorded while '
